@@ -29,7 +29,7 @@ PROP = {'gen': [],
                'is called); signal-hook semantics as read from its source (pipe drained, flags in signal-number order); the decoder is '
                'abstracted to tokens (C02/C03). Defects found and fixed: de62e95, 68e120b, 1cf853f+afe2796 (wake only), adc719b, ab83088, 58259f6, e293376 (escape sequence resize '
                'mode, which the model does not cover: pty scenario only); domain assumptions: the peer eventually reads (closing sequence; every event other '
-               'than Wake under poll(None) with output queued). Timing checks of the pty sessions allow scripted wait * 1.25 + 250 ms. No axioms.',
+               'than Wake under poll(None) with output queued). Timing checks of the pty sessions allow scripted wait * 1.25 + 250 ms; a late session is run again (twice at most, 20 s budget) and, when a timing probe shows the host is overloaded, judged by order and content of the poll results, the 2 s watchdog and the restored settings only. No axioms.',
  'technique': 'Coq proof (invariants of a transition system under arbitrary schedules) + scripted pty correspondence; partial',
  'design_ref': 'DESIGN.md 6.17',
  'n_quick': 300,
